@@ -1677,6 +1677,7 @@ type scanKeywords struct {
 	WSPattern  string
 	ReadFn     *ssa.Function
 	ReadRegex  *ssa.Function
+	ReadClass  *ssa.Function // the stream method that reads a run of bytes accepted by a func(byte) bool
 	OperatorFn *ssa.Function
 }
 
@@ -1722,6 +1723,53 @@ func scannerKeywords(p *Prog) (*scanKeywords, error) {
 		if pats, ok := regexPatternsOf(p, cs.Instr.Common().Args[0], 0); ok {
 			extraPatterns = append(extraPatterns, pats...)
 		}
+	}
+	// a class reader: a stream method that is handed a func(byte) bool and reads the longest run of accepted
+	// bytes (readWhile(isIDByte)): each predicate passed to it is evaluated on all 256 bytes and stands for
+	// the pattern [class]+ (or [class]* when it accepts no letter or digit: the separator class)
+	for _, f := range p.RList {
+		if f.Signature.Recv() == nil || !strings.Contains(f.String(), "expressionStream") {
+			continue
+		}
+		pidx := -1
+		for i, prm := range f.Params {
+			if sig, ok := prm.Type().Underlying().(*types.Signature); ok && sig.Params().Len() == 1 && sig.Results().Len() == 1 && isBoolType(sig.Results().At(0).Type()) {
+				if b, ok := sig.Params().At(0).Type().Underlying().(*types.Basic); ok && (b.Kind() == types.Uint8 || b.Kind() == types.Byte) {
+					pidx = i
+				}
+			}
+		}
+		if pidx < 0 {
+			continue
+		}
+		for _, g := range p.RList {
+			for _, gb := range g.Blocks {
+				for _, gin := range gb.Instrs {
+					gc, ok := gin.(*ssa.Call)
+					if !ok || gc.Call.StaticCallee() != f || pidx >= len(gc.Call.Args) {
+						continue
+					}
+					pred, ok := gc.Call.Args[pidx].(*ssa.Function)
+					if !ok {
+						return nil, fmt.Errorf("%s: the byte predicate handed to %s is not a plain function", p.pos(gc.Pos()), f.Name())
+					}
+					cls, err := evalBytePred(pred)
+					if err != nil {
+						return nil, fmt.Errorf("%s: byte predicate %s: %v", p.pos(gc.Pos()), pred.Name(), err)
+					}
+					rep := "*"
+					if cls['a'] || cls['A'] || cls['0'] {
+						rep = "+"
+					}
+					pat, err := byteClassPattern(cls, rep)
+					if err != nil {
+						return nil, fmt.Errorf("%s: byte predicate %s: %v", p.pos(gc.Pos()), pred.Name(), err)
+					}
+					extraPatterns = append(extraPatterns, pat)
+				}
+			}
+		}
+		k.ReadClass = f
 	}
 	if k.ReadFn == nil {
 		return nil, fmt.Errorf("unresolved anchor: the stream method that matches literal keywords (wrapper of strings.HasPrefix)")
